@@ -194,6 +194,8 @@ func CheckC01(e *Env) int {
 	progs = append(progs, resultKindMatrix(e)...)
 	progs = append(progs, crossPkgAccessProgs(e)...)
 	progs = append(progs, injectorTemplateForms()...)
+	// several value variables in one injector whose types suggest one and the same name
+	progs = append(progs, sameNamedValuesFamily()...)
 	results := RunPool(e, progs, PoolOpts{Execute: true, Name: "c01"})
 	for _, pr := range results {
 		EvalAccepted(pr)
